@@ -162,7 +162,7 @@ def parse(
                 name, parameters = process_parameters(branches[0])
                 if len(branches) > 1:
                     # It's got a body, so it's a function definition
-                    body = parse(branches[-1], structure_cls)
+                    body = parse(branches[-1], structure.FunctionDef)
                     structures.append(
                         structure.FunctionDef(name, parameters, body)
                     )
